@@ -11,7 +11,12 @@ EXPLANATION = ("bounded stand-in: the parsed Domain's view (types, constants, pr
                "formula, effect list) is compared with an independent reading of the same text for generated domains; forms outside the "
                "representable fragment must raise when parsed or when the action is first grounded/evaluated.")
 TRUSTED = ["spec/pddl_sem.py (independent reader: sem_domain, sem_pre, sem_eff, sem_typed_list)", "spec/views.py (reads public attributes only)"]
-ASSUMPTIONS = ["bounded: bodies from spec/gen.py plus hand-listed layouts, signatures and unsupported forms"]
+ASSUMPTIONS = ["bounded: bodies from spec/gen.py plus hand-listed layouts, signatures and unsupported forms",
+               "the assumed contract of parse_signature that parse_functions / _parse_predicate are checked against only labels the returned "
+               "fresh dictionary with the token list it was parsed from (ghost function sig_src); WHICH parameters the dictionary holds and "
+               "with which type objects is proved on the real body (contract parse_signature@members: exactly the written names, typed names "
+               "with the registered object of the declared type, untyped ones with the default type, SyntaxError for a name without '?'); "
+               "the ORDER of the parameters is not proved (contract parse_signature@proved stays undischarged) and rests on the bounded stand-in"]
 
 
 def _norm_domain(d):
